@@ -14,6 +14,11 @@ cp "$D/demo${K}_test.go" "$S/repo/$PKG/zz_demo${K}_test.go"
 ( cd "$S/repo" && go test ${SEED_GOTEST_FLAGS:-} -count=1 -run "$TEST" "./$PKG/" >"$S/pa.log" 2>&1 ); pa=$?
 rm "$S/repo/$PKG/zz_demo${K}_test.go"
 ( cd "$S/repo" && go build ./... && go test -count=1 ./... >"$S/suite.log" 2>&1 ); su=$?
+# protocol/ttheader's own test listens on a fixed TCP port: retry when another suite run held it
+for try in 1 2 3 4; do
+  [ $su -ne 0 ] && grep -q "address already in use" "$S/suite.log" || break
+  sleep $((RANDOM % 7 + 3)); ( cd "$S/repo" && go test -count=1 ./... >"$S/suite.log" 2>&1 ); su=$?
+done
 echo "demo unpatched rc=$un (want 0) | demo patched rc=$pa (want !=0) | suite with patch rc=$su (want 0)"
 [ $su -ne 0 ] && grep -v "^ok\|no test files" "$S/suite.log" | head -5
 [ $pa -eq 0 ] && echo "DEMO DOES NOT FAIL WITH PATCH"
